@@ -1,4 +1,4 @@
-//! Codec modes: VarInt (C15).
+//! Codec modes: VarInt (C15), name-value pairs (C16).
 use crate::{arg, argn, bytes, nums, Args};
 use fastcgi_server::protocol::varint::VarInt;
 
@@ -7,6 +7,9 @@ pub fn dispatch(mode: &str, a: &Args) -> Option<Args> {
         "vi_read" => vi_read(a),
         "vi_write" => vi_write(a),
         "vi_try" => vi_try(a),
+        "nv_run" => nv_run(a),
+        "nv_write" => nv_write(a),
+        "nv_write_big" => nv_write_big(a),
         _ => return None,
     })
 }
@@ -54,4 +57,80 @@ pub fn vi_try(a: &Args) -> Args {
         Err(_) => vec![0],
     };
     vec![r32, rus]
+}
+
+use fastcgi_server::protocol::nv;
+
+/// Drives `NVIter` over `&[u8]` and over `&mut [u8]`; asserts that both agree, that every yielded
+/// name/value is a consecutive sub-slice of the input (zero-copy), that the iterator is fused and
+/// that `into_inner` hands back exactly the undecoded suffix.
+pub fn nv_run(a: &Args) -> Args {
+    let d = bytes(&arg(a, 0));
+    let base = d.as_ptr() as usize;
+    let mut it = nv::NVIter::new(&d[..]);
+    let hint = it.size_hint();
+    assert_eq!(hint.0, 0);
+    let mut pairs: Vec<(Vec<u8>, Vec<u8>)> = Vec::new();
+    let mut pos = 0usize;
+    for (n, v) in &mut it {
+        let no = n.as_ptr() as usize - base;
+        let vo = v.as_ptr() as usize - base;
+        let h = no - pos;
+        assert!(h == 2 || h == 5 || h == 8, "header length {h}");
+        assert_eq!(vo, no + n.len(), "value does not follow name");
+        pos = vo + v.len();
+        pairs.push((n.to_vec(), v.to_vec()));
+    }
+    assert!(it.next().is_none() && it.next().is_none(), "iterator not fused");
+    let rest = it.into_inner();
+    assert_eq!(rest.as_ptr() as usize - base, pos, "remainder is not the undecoded suffix");
+    assert_eq!(rest.len(), d.len() - pos);
+    let rest = rest.to_vec();
+
+    let mut dm = d.clone();
+    let mut itm = nv::NVIter::new(&mut dm[..]);
+    let mut pm: Vec<(Vec<u8>, Vec<u8>)> = Vec::new();
+    for (n, v) in &mut itm {
+        pm.push((n.to_vec(), v.to_vec()));
+    }
+    assert!(itm.next().is_none());
+    let restm = itm.into_inner().to_vec();
+    assert_eq!(pairs, pm, "shared and mutable iterators disagree");
+    assert_eq!(rest, restm, "shared and mutable remainders disagree");
+
+    let mut out = vec![vec![pairs.len() as u128], vec![hint.1.expect("upper bound") as u128]];
+    for (n, v) in &pairs {
+        out.push(nums(n));
+        out.push(nums(v));
+    }
+    out.push(nums(&rest));
+    out
+}
+
+pub fn nv_write(a: &Args) -> Args {
+    let n = bytes(&arg(a, 0));
+    let v = bytes(&arg(a, 1));
+    let mut buf = vec![0xAAu8; 3];
+    match nv::write((&n, &v), &mut buf) {
+        Ok(cnt) => {
+            assert_eq!(&buf[..3], &[0xAA; 3], "existing contents touched");
+            vec![vec![1], vec![cnt as u128], nums(&buf[3..])]
+        },
+        Err(_) => vec![vec![0]],
+    }
+}
+
+/// Components given by length only (zero-filled, lazily allocated); output goes to a sink.
+pub fn nv_write_big(a: &Args) -> Args {
+    let nl = argn(a, 0) as usize;
+    let vl = argn(a, 1) as usize;
+    let n = vec![0u8; nl];
+    let v = vec![0u8; vl];
+    match nv::write((&n, &v), std::io::sink()) {
+        Ok(cnt) => vec![vec![1], vec![cnt as u128]],
+        Err(e) => {
+            assert_eq!(e.kind(), std::io::ErrorKind::InvalidInput);
+            vec![vec![0]]
+        },
+    }
 }
